@@ -8,7 +8,10 @@ src=$wt/out/$id
 [ -f $src/patch.diff ] || { echo "no patch in $src"; exit 2; }
 mkdir -p seeded/$name
 cp $src/patch.diff $src/meta.json seeded/$name/
-sed "s#$wt#/repo#g" $src/demo.py > seeded/$name/demo.py
+# demos refer to the library either by the worktree path or relative to their own location (<lib>/out/<ID>/demo.py)
+sed -e "s#$wt#/repo#g" \
+    -e 's#os.path.dirname(os.path.dirname(os.path.dirname(os.path.abspath(__file__))))#os.environ.get("XDIS_UNDER_TEST", "/repo")#g' \
+    $src/demo.py > seeded/$name/demo.py
 [ -n "$(git -C /repo status --porcelain --untracked-files=no)" ] && { echo "/repo not clean"; exit 2; }
 PYTHONPATH=/repo /venv/bin/python seeded/$name/demo.py >/dev/null 2>&1; clean=$?
 git -C /repo apply $PWD/seeded/$name/patch.diff || { echo "patch does not apply"; exit 2; }
